@@ -482,6 +482,44 @@ func updateCacheCoherenceRule(c *Ctx, r4 string) {
 								}
 							}
 						}
+						// a local helper closure that takes something else (an index, say): look inside it for the
+						// SetStruct value and substitute the call's arguments for the closure's parameters
+						if cached == "" {
+							if cf := w.CalleeFunc(cs2); cf != nil && cf.Lit != nil {
+								cdefs := localDefs(cf)
+								cinfo := cf.Pkg.TypesInfo
+								for _, ics := range w.Sites(cf) {
+									if ics.Key != kL2Set || len(ics.Call.Args) < 3 {
+										continue
+									}
+									v := ast.Unparen(ics.Call.Args[2])
+									for d := 0; d < 3; d++ {
+										if id, ok := v.(*ast.Ident); ok {
+											if ds := cdefs[cinfo.Uses[id]]; len(ds) == 1 {
+												v = ast.Unparen(ds[0])
+												continue
+											}
+										}
+										break
+									}
+									if u, ok := v.(*ast.UnaryExpr); ok && u.Op == token.AND {
+										v = ast.Unparen(u.X)
+									}
+									txt := types.ExprString(v)
+									pi := 0
+									for _, fld := range cf.Lit.Type.Params.List {
+										for _, nm := range fld.Names {
+											if pi < len(cs2.Call.Args) {
+												txt = substIdent(txt, nm.Name, types.ExprString(cs2.Call.Args[pi]))
+											}
+											pi++
+										}
+									}
+									cached = txt
+									cpos = cs2.Call.Pos()
+								}
+							}
+						}
 					}
 				}
 				if written != "" && cached != "" {
@@ -495,4 +533,22 @@ func updateCacheCoherenceRule(c *Ctx, r4 string) {
 		}
 	}
 	c.Check(nW >= 4, r4, "StoreRepository.Update: storeinfo write sites inventoried", f.Decl.Pos(), fmt.Sprintf("%d write sites (commit path and undo)", nW), fmt.Sprintf("found %d write sites, expected at least 4", nW), nil)
+}
+
+// substIdent replaces whole-word occurrences of an identifier in an expression text.
+func substIdent(txt, name, repl string) string {
+	isWord := func(b byte) bool {
+		return b == '_' || (b >= '0' && b <= '9') || (b >= 'a' && b <= 'z') || (b >= 'A' && b <= 'Z')
+	}
+	var out []byte
+	for i := 0; i < len(txt); {
+		if strings.HasPrefix(txt[i:], name) && (i == 0 || (!isWord(txt[i-1]) && txt[i-1] != '.')) && (i+len(name) == len(txt) || !isWord(txt[i+len(name)])) {
+			out = append(out, repl...)
+			i += len(name)
+			continue
+		}
+		out = append(out, txt[i])
+		i++
+	}
+	return string(out)
 }
